@@ -92,16 +92,22 @@ func vhTokenRoundTrip(maxN int) {
 	mint := v.Str("mint")
 	includeDLEQ := v.Bool("includeDLEQ")
 	version := v.Int("version", 3, 4)
+	wantUnit := Unit(v.Int("unit", 0, 1)) // Sat, or the first value that is not a unit
 	var tok Token
 	var err error
 	if version == 3 {
 		var t TokenV3
-		t, err = NewTokenV3(proofs, mint, Sat, includeDLEQ)
+		t, err = NewTokenV3(proofs, mint, wantUnit, includeDLEQ)
 		tok = t
 	} else {
 		var t TokenV4
-		t, err = NewTokenV4(proofs, mint, Sat, includeDLEQ)
+		t, err = NewTokenV4(proofs, mint, wantUnit, includeDLEQ)
 		tok = t
+	}
+	if wantUnit != Sat {
+		v.Assert(err != nil, "C14 no token is built for a unit the library does not know")
+		v.Reach("not-built")
+		return
 	}
 	if err != nil {
 		// the only refusal for well-formed hex fields: a V4 token asked to carry a DLEQ proof without r
@@ -124,6 +130,14 @@ func vhTokenRoundTrip(maxN int) {
 		return
 	}
 	v.Assert(dec.Mint() == mint, "C14 the decoded token carries the mint URL")
+	unit := ""
+	switch t := dec.(type) {
+	case *TokenV3:
+		unit = t.Unit
+	case *TokenV4:
+		unit = t.Unit
+	}
+	v.Assert(unit == wantUnit.String(), "C14 the decoded token carries the unit it was built with")
 	got := dec.Proofs()
 	v.Assert(len(got) == n, "C14 the decoded token carries as many proofs as were put in")
 	if len(got) == n {
